@@ -328,11 +328,11 @@ class WSGIRequestHandler(BaseHTTPRequestHandler):
             nonlocal status_set, headers_set
             if exc_info:
                 try:
-                    if headers_sent:
+                    if headers_sent is not None:
                         raise exc_info[1].with_traceback(exc_info[2])
                 finally:
                     exc_info = None
-            elif headers_set:
+            elif headers_set is not None:
                 raise AssertionError("Headers already set")
             status_set = status
             headers_set = headers
